@@ -194,6 +194,37 @@ mod proofs {
         core::mem::forget(f);
     }
 
+    /// the same for long runs (the padding of large slots): every byte of [pos, target) is zero
+    /// whatever stale bytes were there, nothing else changes (universally quantified byte i)
+    #[kani::proof]
+    #[kani::unwind(10)]
+    fn b_zero_to_offset_long() {
+        let img: [u8; 2400] = kani::any();
+        let end: u64 = kani::any();
+        kani::assume(end <= 2300);
+        let mut buf = BufFile::from_image(img.to_vec(), end);
+        buf.bulk = true;
+        let mut f = verif::val::var_file(buf);
+        let p: u64 = kani::any();
+        let t: u64 = kani::any();
+        kani::assume(p <= end && t <= 2390);
+        ok(f.seek_from_start(ValuePieceOffset::new(p)));
+        ok(f.write_zero_to_offset(ValuePieceOffset::new(t)));
+        let b = f.verif_buf();
+        let i: usize = kani::any();
+        kani::assume(i < 2400);
+        let iu = i as u64;
+        if iu >= p && iu < t {
+            assert!(b.data[i] == 0, "padding byte not zero (stale content survives)");
+        } else if iu < end {
+            assert!(b.data[i] == img[i], "zero fill touched a byte outside [pos, target)");
+        }
+        assert!(b.pos == if t > p { t } else { p }, "position after the zero fill");
+        assert!(b.end == if t > end { t } else { end }, "file length after the zero fill");
+        kani::cover!(t > p + 1024, "run longer than 1 KiB");
+        core::mem::forget(f);
+    }
+
     // ------------------------------------------------------------------ table file (htx.rs)
     // A table file for N buckets is T = 128 + 8N + max(N/8, 1) + 8 fully symbolic bytes; only the
     // header words are pinned and the occupancy bitmap is constrained to agree with the bucket
